@@ -94,18 +94,22 @@ def r2_affine_invariant(repo=None):
         # statements after the try that holds the extension call, at the top level of the function body
         idx = None
         rvar = None
+        arrname = "arr"
         for i, s in enumerate(fn.body):
             if isinstance(s, ast.Try):
                 for n in ast.walk(s):
                     if isinstance(n, ast.Assign) and isinstance(n.value, ast.Call) and pyfront.call_name(n.value) == ext:
                         idx = i
                         rvar = n.targets[0].id
+                        # the data array handed to the extension (second argument, after the channel object)
+                        arrname = n.value.args[1].id if len(n.value.args) > 1 and isinstance(n.value.args[1], ast.Name) else "arr"
         if idx is None:
             raise AnalysisError("%s: extension call %s not found in a try statement" % (q, ext))
         post = fn.body[idx + 1:]
         env = {"self." + a: Lin({s: 1}) for a, s in ATTR.items()}
         env[rvar] = Lin({"r": 1})
-        env["arr.shape[0]"] = Lin({"n": 1})
+        env["%s.shape[0]" % arrname] = Lin({"n": 1})
+        env["len(%s)" % arrname] = Lin({"n": 1})
         env["next_sample"] = Lin({"p": 1})
         stores = {a: 0 for a in ATTR}
         ret = None
